@@ -5180,7 +5180,61 @@ class DfaCompileCtx:
 
                     if state in visited:
                         raise IllegalDFAStateError("Infinite loop due to self-referential fallthrough", transition)
-        
+
+        # An append that finds its string full sends the same character to the out-of-space handler instead. A handler
+        # that leads back to the very same append without consuming anything and without making room in that string
+        # would go round for ever.
+        def consider(transition):
+            return not any(x.get_target_override_mode() in [ActionOverrideMode.ALWAYS_GOTO_OTHER, ActionOverrideMode.ALWAYS_GOTO_UNDEFINED] and transition.target not in x.get_target_override_targets() for x in transition.actions)
+
+        def redirects(action):
+            if action.get_target_override_mode() == ActionOverrideMode.ALWAYS_GOTO_OTHER:
+                return action.get_target_override_targets()
+            if isinstance(action, ConditionalAction):
+                return [tgt for sub in action.embeds() for tgt in redirects(sub)]
+            return []
+
+        def makes_room(action, storage):
+            if storage.holds_a(OutputStorageType.STR) and storage.effective_string_size() == 0:
+                return False
+            if isinstance(action, DeleteBuf):
+                return action.into_storage is storage
+            if isinstance(action, SetToStr):
+                return action.into_storage is storage and len(action.value_expr) < storage.effective_string_size()
+            return False
+
+        for state in self.dfa.states:
+            for transition in state.transitions:
+                for action in transition.actions:
+                    if not isinstance(action, (AppendTo, AppendCharTo)):
+                        continue
+                    storage = action.into_storage
+
+                    def follow(t, symbol, roomy, visited):
+                        # t is taken without consuming: does control get back to the append with the string still full?
+                        roomy = roomy or any(makes_room(x, storage) for x in t.actions)
+                        targets = [tgt for x in t.actions for tgt in redirects(x)]
+                        if consider(t):
+                            targets.append(t.target)
+                        return any(walk(tgt, symbol, roomy, visited) for tgt in targets)
+
+                    def walk(x, symbol, roomy, visited):
+                        if (x, roomy) in visited:
+                            return False
+                        visited.add((x, roomy))
+                        if isinstance(x, DFConditionPoint):
+                            return any(follow(i, symbol, roomy, visited) for i in x.transitions)
+                        nxt = x[symbol]
+                        if nxt is None:
+                            return False
+                        if nxt is transition:
+                            return not roomy
+                        return nxt.is_fallthrough and follow(nxt, symbol, roomy, visited)
+
+                    for symbol in transition.on_values:
+                        if symbol is not DFTransition.End and walk(action.end_target, symbol, False, set()):
+                            raise IllegalDFAStateError("Infinite loop: the out-of-space handler leads back to the append without consuming input or making room", transition)
+
 
     def compile(self):
         """
